@@ -282,6 +282,16 @@ func (t *Task) runWithLocking(queued bool) {
 	vhook.AtS("modules.task.prerun", t.name)
 	t.lock.Lock()
 
+	// The schedule handler decided to start this task as overdue before it took
+	// the task lock. Check that this still holds: the queue handler may have
+	// started (and finished) the task in the meantime, and the task may have been
+	// submitted again since. Acting on the stale decision would run the task
+	// once too often or swallow the new submission.
+	if !queued && (t.scheduleListElement == nil || time.Now().Before(t.executeAt)) {
+		t.lock.Unlock()
+		return
+	}
+
 	// we will not attempt execution, remove from queues
 	wasListed := t.queueElement != nil || t.prioritizedQueueElement != nil || t.scheduleListElement != nil
 	t.removeFromQueues()
